@@ -64,6 +64,20 @@ impl UnifiedCommandExecutor {
 //@@ body
 //@@ end
 
+//@@ unit exec_expire arm src/storage/commands/executor.rs UnifiedCommandExecutor::execute_key "KeyCommand::Expire { key, seconds }"
+    fn exec_expire(&mut self, db: usize, key: Vec<u8>, seconds: i64) -> (r: Result<RespFrame>)
+        ensures (r is Ok || !mem_exhausted(old(self).storage)) ==> ({
+                let k = key@; let present = old(self).storage.ds@.contains_key((db as int, k));
+                // C12 / C02: exactly the direct EXPIRE (handle_expire): a time that is not in the future deletes the key at once;
+                // otherwise a present key gets exactly that many seconds; the reply says whether the key was there
+                &&& r matches Ok(fr) && fr == RespFrame::Integer(if present { 1i64 } else { 0i64 })
+                &&& seconds <= 0 ==> final(self).storage.ds@ == old(self).storage.ds@.remove((db as int, k)) && final(self).storage.ttl@ == old(self).storage.ttl@.remove((db as int, k))
+                &&& seconds > 0 ==> final(self).storage.ds@ == old(self).storage.ds@
+                        && final(self).storage.ttl@ == (if present { old(self).storage.ttl@.insert((db as int, k), seconds as int * 1_000_000_000) } else { old(self).storage.ttl@ })
+            }),
+//@@ body
+//@@ end
+
 //@@ unit exec_del arm src/storage/commands/executor.rs UnifiedCommandExecutor::execute_string "StringCommand::Del { keys }"
 //@@   rewrite RT "let mut deleted = 0;" "let mut deleted: i64 = 0;"
 //@@   rewrite RFOR 0 it
